@@ -72,7 +72,8 @@ def unit_query(U):
                 skw = sym_kwargs(kw)
                 xx = skw.pop("id")
                 if xform == "feature":
-                    xx = blank_feature(id=xx)
+                    # a Feature with coordinates of its own (they play no part in who its relatives are)
+                    xx = blank_feature(id=xx, seqid=SStr([Val(z3.String("x.seqid"), nonempty=True)]), start=SInt(z3.Int("x.start")), end=SInt(z3.Int("x.end")))
                 list(it.call(getattr(I.FeatureDB, entry), [db, xx], skw))
             base = "C02.query.%s[level=%s,ft=%s,order=%s,rev=%s,x=%s]" % (entry, lvn, fn, "none" if ob is None else ("str" if isinstance(ob, str) else "tuple"), rev, xform)
             spec = z3.And(SQ.relation_ok(frow, rrow, x.z, lv.z if lv is not None else None, entry), SQ.type_ok(frow, _spec_ft(ft)))
@@ -237,7 +238,13 @@ def unit_bounded_text(U):
                      "4 multi-parent graphs x line permutations x {comma list, repeated Parent keys, comma lists in a file whose dialect has repeated keys} x checklines {10, 1}", cases, fails)
 
 
-UNITS = [("query", unit_query)] + IM.c02_units() + [("parse.parents", unit_parse_parents), ("bounded.text", unit_bounded_text)]
+def unit_schema(U):
+    """standing assumption of the SQL model, checked on the real SCHEMA: plain text/int columns, exact text comparison"""
+    from contracts import importer as IM_
+    IM_.prove_plain_schema(U, "C02", ['features', 'relations'])
+
+
+UNITS = [("schema", unit_schema), ("query", unit_query)] + IM.c02_units() + [("parse.parents", unit_parse_parents), ("bounded.text", unit_bounded_text)]
 
 
 def replay_file(doc):
